@@ -645,6 +645,13 @@ impl Epoch {
             i64::from(decomposed[7]) * Unit::Hour + i64::from(decomposed[8]) * Unit::Minute
         };
 
+        // A second of 60 labels an inserted (leap) second, and the label is that of the time once the written
+        // offset is removed (RFC 3339 5.8: 1990-12-31T15:59:60-08:00 is 23:59:60Z): it is checked there.
+        let leap_second = decomposed[5] == 60;
+        if leap_second {
+            decomposed[5] = 59;
+        }
+
         let epoch = Self::maybe_from_gregorian(
             decomposed[0],
             decomposed[1].try_into().unwrap(),
@@ -654,9 +661,19 @@ impl Epoch {
             decomposed[5].try_into().unwrap(),
             decomposed[6].try_into().unwrap(),
             ts,
-        )?;
+        )? + tz;
 
-        Ok(epoch + tz)
+        if leap_second {
+            let (y, m, d, hh, mm, ss, _) = Self::compute_gregorian(epoch.duration, ts);
+            if !(hh == 23 && mm == 59 && ss == 59 && is_gregorian_valid(y, m, d, 23, 59, 60, 0)) {
+                return Err(HifitimeError::Parse {
+                    source: ParsingError::ValueError,
+                    details: "second 60 that is not a leap second",
+                });
+            }
+        }
+
+        Ok(epoch)
     }
 }
 
